@@ -182,8 +182,76 @@ func rcSensor(a kv) string {
 	return fmt.Sprintf("ok rounds=%d", rounds)
 }
 
+// rc.indep loops=<n> rounds=<r> cycles=<c>: controllers that share NOTHING (own sensor, own step-curve with its own step
+// table, own fan) run their control loops at the same time - hidden shared state inside "pure" helper functions
+// (buffer pools, caches) shows up here
+func rcIndep(a kv) string {
+	loops, rounds, cycles := a.int("loops", 6), a.int("rounds", 10), a.int("cycles", 40)
+	dir, err := os.MkdirTemp("", "verifrci")
+	if err != nil {
+		panic(err)
+	}
+	defer os.RemoveAll(dir)
+	identity := map[int]int{}
+	for i := 0; i < 256; i++ {
+		identity[i] = i
+	}
+	for r := 0; r < rounds; r++ {
+		rcCounter++
+		p := fmt.Sprintf("rci%d_", rcCounter)
+		ctls := make([]*controller.DefaultFanController, loops)
+		for i := range ctls {
+			sfile := filepath.Join(dir, fmt.Sprintf("%stemp%d", p, i))
+			_ = os.WriteFile(sfile, []byte(fmt.Sprintf("%d\n", 30000+i*3000)), 0o644)
+			sid := fmt.Sprintf("%ss%d", p, i)
+			s, err := sensors.NewSensor(configuration.SensorConfig{ID: sid, File: &configuration.FileSensorConfig{Path: sfile}})
+			if err != nil {
+				panic(err)
+			}
+			s.SetMovingAvg(float64(30000 + i*3000))
+			sensors.RegisterSensor(s)
+			steps := map[int]float64{}
+			for k := 0; k < 3+i%5; k++ {
+				steps[20+k*(7+i)] = float64((k * 40) % 256)
+			}
+			cid := fmt.Sprintf("%sc%d", p, i)
+			c, err := curves.NewSpeedCurve(configuration.CurveConfig{ID: cid, Linear: &configuration.LinearCurveConfig{Sensor: sid, Steps: steps}})
+			if err != nil {
+				panic(err)
+			}
+			curves.RegisterSpeedCurve(c)
+			pf := filepath.Join(dir, fmt.Sprintf("%spwm%d", p, i))
+			_ = os.WriteFile(pf, []byte("100\n"), 0o644)
+			f, err := fans.NewFan(configuration.FanConfig{ID: fmt.Sprintf("%sf%d", p, i), Curve: cid, File: &configuration.FileFanConfig{Path: pf}})
+			if err != nil {
+				panic(err)
+			}
+			ctls[i] = controller.VerifNew(nil, f, c, control_loop.NewDirectControlLoop(nil), 200*time.Millisecond, identity, true)
+		}
+		start := make(chan struct{})
+		var wg sync.WaitGroup
+		for i := range ctls {
+			wg.Add(1)
+			go func(c *controller.DefaultFanController) {
+				defer wg.Done()
+				defer func() { _ = recover() }()
+				<-start
+				for k := 0; k < cycles; k++ {
+					_ = c.UpdateFanSpeed()
+				}
+			}(ctls[i])
+		}
+		close(start)
+		wg.Wait()
+	}
+	return fmt.Sprintf("ok rounds=%d", rounds)
+}
+
 func init() {
 	register("rc", func(op string, a kv) string {
+		if op == "rc.indep" {
+			return rcIndep(a)
+		}
 		if op == "rc.shared" {
 			return rcShared(a)
 		}
